@@ -155,6 +155,17 @@ def invariances(ao):
                         bad.append(("conversion:diagram:r0_from_slopes(slope_variance_from_r0)-inverse-pair:static-offset",
                                     dict(r0=r0, wavelength=wl, subapDiam=d, offset=off, got=got, expected=want)))
                         return bad, n
+    # a masked slope record (flagged frames): the flagged samples do not enter the variance
+    for r0 in (0.1, 0.4):
+        sig = math.sqrt(float(ac.slope_variance_from_r0(r0, 500e-9, 0.2)))
+        good = sig * pat
+        junk = np.concatenate([good, [1e3 * sig, -7e2 * sig, 5e2 * sig, 0.0]])
+        msk = np.concatenate([np.zeros(good.size, bool), [True, True, True, True]])
+        got = float(np.ravel(ac.r0_from_slopes(np.ma.MaskedArray(junk, mask=msk), 500e-9, 0.2))[0])
+        n += 1
+        if not abs(got - r0) <= 1e-9 * r0:
+            bad.append(("conversion:diagram:r0_from_slopes(slope_variance_from_r0)-inverse-pair:masked-record", dict(r0=r0, got=got)))
+            break
     return bad, n
 
 
